@@ -135,6 +135,19 @@ import string as _string_mod
 _STRING = _PureModule("string", {k: getattr(_string_mod, k) for k in ("ascii_letters", "ascii_lowercase", "ascii_uppercase", "digits", "hexdigits",
                                                                        "octdigits", "punctuation", "printable", "whitespace")})
 import errno as _errno_mod
+import copy as _copy_mod
+
+
+def _shallow_copy(v):
+    """copy.copy: model objects are copied attribute by attribute (memoised values included), like object.__reduce_ex__ does"""
+    if hasattr(v, "shallow_copy"):
+        return v.shallow_copy()
+    if isinstance(v, (Opaque, Lam, Partial, ModRef, Record)) or v is TOP:
+        raise Unknown("copy.copy of %r" % (v,))
+    return _copy_mod.copy(v)
+
+
+_COPY = _PureModule("copy", {"copy": _shallow_copy})
 _ERRNO = _PureModule("errno", {k: getattr(_errno_mod, k) for k in dir(_errno_mod) if k.startswith("E")})
 
 
@@ -166,6 +179,7 @@ SAFE_BUILTINS = {
     "NotImplementedError": NotImplementedError, "UnicodeDecodeError": UnicodeDecodeError,
     "format": format, "OSError": OSError, "StopIteration": StopIteration, "RuntimeError": RuntimeError,
     "AssertionError": AssertionError, "LookupError": LookupError, "ArithmeticError": ArithmeticError,
+    "object": object,
 }
 def _public(t):
     return {n for n in dir(t) if not n.startswith("_")}
@@ -270,13 +284,15 @@ class Folder:
                         env[local] = _PARTIAL
                     elif st.module == "itertools" and a.name in _ITERTOOLS_PURE:
                         env[local] = getattr(itertools, a.name)
+                    elif st.module == "copy" and a.name == "copy":
+                        env[local] = _shallow_copy
                     else:
                         env[local] = Opaque("import %s.%s" % (st.module, a.name))
             elif isinstance(st, ast.Import):
                 for a in st.names:
                     nm = a.asname or a.name.split(".")[0]
                     env[nm] = itertools if a.name == "itertools" else _CODECS if a.name == "codecs" else \
-                        _SYS if a.name == "sys" else _RE if a.name == "re" else _ERRNO if a.name == "errno" else _REPRLIB if a.name == "reprlib" else _STRING if a.name == "string" else _UNICODEDATA if a.name == "unicodedata" else \
+                        _SYS if a.name == "sys" else _COPY if a.name == "copy" else _RE if a.name == "re" else _ERRNO if a.name == "errno" else _REPRLIB if a.name == "reprlib" else _STRING if a.name == "string" else _UNICODEDATA if a.name == "unicodedata" else \
                         Opaque("module %s" % a.name)
             elif isinstance(st, (ast.Assign, ast.AnnAssign)):
                 if getattr(st, "value", None) is None:
